@@ -143,6 +143,11 @@ BodiesK == {Bn(">", K, NumA("0")), Bn("=", K, Own("x")), Bn("<", K, Fld(VarR("@A
             Un("not", Bn("implies", Fld(VarR("@A"), "b"), Bn(">", K, NumA("0")))),
             Un("not", Bn("implies", Bn("<", K, Fld(VarR("@A"), "n")), Own("p"))),
             Bn("implies", Bn(">", K, NumA("0")), Bn(">", Fld(VarR("@A"), "n"), K)),
+            \* chains of three conjuncts: two depend on the variable (one of them on the alias), one does not
+            Bn("and", Bn("and", Bn(">", K, NumA("0")), Bn("<", K, Fld(VarR("@A"), "n"))), Own("p")),
+            Bn("and", Own("p"), Bn("and", Bn(">", K, NumA("0")), Bn("<", K, Fld(VarR("@A"), "n")))),
+            Bn("and", Bn("and", Bn("<", K, Fld(VarR("@A"), "n")), Bn(">", K, NumA("0"))), Bn(">", Own("x"), NumA("0"))),
+            Bn("and", Bn("and", Bn(">", K, NumA("0")), Fld(VarR("@A"), "b")), Bn("<", K, NumA("1"))),
             \* the bound variable only as an INNER index of an accessor chain
             Bn(">", Idx(Fld(Idx(Own("zs"), K), "ys"), NumA("0")), NumA("0")),
             Bn(">", Idx(Idx(Own("mm"), K), NumA("0")), NumA("0")),
